@@ -310,26 +310,29 @@ def _cmp(a, op, b):
     return {">": a > b, "<": a < b, ">=": a >= b, "<=": a <= b, "=": a == b, "<>": a != b}[op]
 
 
+class Acc(set):
+    """set of acceptable values of one viral attribute of one result datapoint + the input values combined into it"""
+
+    def __init__(self, values, inputs):
+        set.__init__(self, values)
+        self.inputs = list(inputs)
+
+
 class Expected:
-    """ids: identifier names of the result in key order; rows: {key: {viral name: set of acceptable values}};
+    """ids: identifier names of the result in key order; rows: {key: {viral name: Acc}};
     exact: the key set of the result must equal rows' keys (else: every result key must be in rows)"""
 
     def __init__(self, ids, rows, exact=True, info=None):
         self.ids, self.rows, self.exact, self.info = ids, rows, exact, info or {}
 
 
-def _shared_virals(dss):
-    names = [set(virals_of(d)) for d in dss]
-    return sorted(set.intersection(*names)) if names else []
-
-
 def _pair_tree(tree, data, rules):
-    """nested dataset-dataset operator: tree = name | [tree, tree] -> (ids, {key: {var: set}}, viral names)"""
+    """nested dataset-dataset operator: tree = name | [tree, tree] -> (ids, {key: {var: Acc}}, viral names)"""
     if isinstance(tree, str):
         ds = data[tree]
         ids = ids_of(ds)
         vs = virals_of(ds)
-        return ids, {_key(r, ids): {v: {r.get(v)} for v in vs} for r in ds.rows}, vs
+        return ids, {_key(r, ids): {v: Acc({r.get(v)}, [r.get(v)]) for v in vs} for r in ds.rows}, vs
     (lids, lrows, lv), (rids, rrows, rv) = _pair_tree(tree[0], data, rules), _pair_tree(tree[1], data, rules)
     if lids != rids:
         raise ValueError("pair model needs equal identifiers")
@@ -339,12 +342,15 @@ def _pair_tree(tree, data, rules):
             continue
         vals = {}
         for v in lv:
-            if v in rv:
-                if v in rules:
-                    vals[v] = rules[v].pair_sets(lvals[v], rrows[k][v])
             # a viral attribute present in one operand only: not modelled (left out of the comparison)
+            if v in rv and v in rules and v in lvals and v in rrows[k]:
+                vals[v] = Acc(rules[v].pair_sets(lvals[v], rrows[k][v]), lvals[v].inputs + rrows[k][v].inputs)
         out[k] = vals
     return lids, out, [v for v in lv if v in rv]
+
+
+def _raw(r, vs):
+    return {v: Acc({r.get(v)}, [r.get(v)]) for v in vs}
 
 
 def expect(stmt, rules, data):
@@ -355,13 +361,48 @@ def expect(stmt, rules, data):
         return Expected(ids, rows)
 
     if ctx == "if":
+        # the repository pins neither "combine the then- and the else-datapoint" nor "take the chosen branch": both accepted
         cond, then, els = data[stmt["ops"][0]], data[stmt["ops"][1]], data[stmt["ops"][2]]
         ids = ids_of(then)
         ci, ti, ei = _index(cond, ids), _index(then, ids), _index(els, ids)
+        shared = [v for v in virals_of(then) if v in virals_of(els) and v in rules]
         rows = {}
         for k in ci:
-            if k in ti and k in ei:
-                rows[k] = {v: rules[v].pair(ti[k].get(v), ei[k].get(v)) for v in _shared_virals([then, els]) if v in rules}
+            if k not in ti and k not in ei:
+                continue
+            vals = {}
+            for v in shared:
+                t = ti[k].get(v) if k in ti else ABSENT
+                e = ei[k].get(v) if k in ei else ABSENT
+                acc = set(rules[v].combine([t, e], "join"))
+                for x in (t, e):
+                    if x is not ABSENT:
+                        acc |= rules[v].combine([x], "join")
+                vals[v] = Acc(acc, [t, e])
+            rows[k] = vals
+        return Expected(ids, rows, exact=False)
+
+    if ctx == "row" and isinstance(stmt["ops"][0], list):
+        # row-preserving operator applied to a nested dataset-dataset expression
+        ids, prow, _ = _pair_tree(stmt["ops"][0], data, rules)
+        rows = {}
+        for k, vals in prow.items():
+            o = {}
+            for v, s in vals.items():
+                if rules[v].fn:
+                    combos = itertools.product(*[sorted(prow[kk][v], key=repr) for kk in prow if v in prow[kk]])
+                    acc = set()
+                    for n, combo in enumerate(combos):
+                        acc |= rules[v].whole(list(combo))
+                        if n > 64:
+                            break
+                    o[v] = Acc(acc, s.inputs)
+                else:
+                    acc = set()
+                    for x in s:
+                        acc |= rules[v].single(x)
+                    o[v] = Acc(acc, s.inputs)
+            rows[k] = o
         return Expected(ids, rows)
 
     if ctx in ("row", "unpivot", "check_dp"):
@@ -371,12 +412,12 @@ def expect(stmt, rules, data):
         allv = {v: [r.get(v) for r in ds.rows] for v in vs}
         rows = {}
         for r in ds.rows:
-            vals = {v: rules[v].rowwise(r.get(v), allv[v]) for v in vs}
+            vals = {v: Acc(rules[v].rowwise(r.get(v), allv[v]), allv[v] if rules[v].fn else [r.get(v)]) for v in vs}
             if ctx == "row":
                 rows[_key(r, ids)] = vals
             elif ctx == "unpivot":
                 for m in stmt["measures"]:
-                    if r.get(m) is not None:
+                    if not (m in r and r[m] is None):         # unpivot drops null measure values; computed measures are non-null here
                         rows[_key(r, ids) + (m,)] = vals
             else:
                 for rid in stmt["rule_ids"]:
@@ -395,7 +436,7 @@ def expect(stmt, rules, data):
             f = stmt.get("filter")
             if f and _cmp(r.get(f[0]), f[1], f[2]) is not True:
                 continue
-            rows[_key(r, ids)] = {v: {r.get(v)} for v in virals_of(ds)}
+            rows[_key(r, ids)] = _raw(r, virals_of(ds))
         return Expected(ids, rows)
 
     if ctx in ("union", "intersect", "setdiff", "symdiff"):
@@ -407,20 +448,21 @@ def expect(stmt, rules, data):
         if ctx == "union":
             for ix in idx:
                 for k, r in ix.items():
-                    rows.setdefault(k, {v: {r.get(v)} for v in vs})
+                    if k not in rows:
+                        rows[k] = _raw(r, vs)
         elif ctx == "intersect":
             for k, r in idx[0].items():
                 if all(k in ix for ix in idx[1:]):
-                    rows[k] = {v: {r.get(v)} for v in vs}
+                    rows[k] = _raw(r, vs)
         elif ctx == "setdiff":
             for k, r in idx[0].items():
                 if k not in idx[1]:
-                    rows[k] = {v: {r.get(v)} for v in vs}
+                    rows[k] = _raw(r, vs)
         else:
             for a, b in ((idx[0], idx[1]), (idx[1], idx[0])):
                 for k, r in a.items():
                     if k not in b:
-                        rows[k] = {v: {r.get(v)} for v in vs}
+                        rows[k] = _raw(r, vs)
         return Expected(ids, rows)
 
     if ctx == "join":
@@ -434,7 +476,7 @@ def expect(stmt, rules, data):
             rows = {}
             for combo in itertools.product(*[d.rows for d in dss]):
                 k = tuple(x for r, l in zip(combo, idl) for x in _key(r, l))
-                rows[k] = {v: rules[v].combine([r.get(v) for r in combo], "join") for v in shared}
+                rows[k] = {v: Acc(rules[v].combine([r.get(v) for r in combo], "join"), [r.get(v) for r in combo]) for v in shared}
             return Expected(ids, rows)
         ids = ids_of(dss[0])
         idx = [_index(d, ids) for d in dss]
@@ -453,10 +495,13 @@ def expect(stmt, rules, data):
                 src = next((ix[k] for ix in idx if k in ix and f[0] in ix[k]), None)
                 if src is None or _cmp(src.get(f[0]), f[1], f[2]) is not True:
                     continue
-            vals = {v: rules[v].combine([ix[k].get(v) if k in ix else ABSENT for ix in idx], "join") for v in shared}
+            vals = {}
+            for v in shared:
+                ins = [ix[k].get(v) if k in ix else ABSENT for ix in idx]
+                vals[v] = Acc(rules[v].combine(ins, "join"), ins)
             for v in only_first:
                 if k in idx[0]:
-                    vals[v] = {idx[0][k].get(v)}
+                    vals[v] = Acc({idx[0][k].get(v)}, [idx[0][k].get(v)])
             rows[k] = vals
         return Expected(ids, rows)
 
@@ -470,13 +515,13 @@ def expect(stmt, rules, data):
             groups.setdefault(_key(r, by), []).append(r)
         rows = {}
         for gk, rs in groups.items():
-            vals = {v: rules[v].combine([r.get(v) for r in rs]) for v in vs}
+            vals = {v: Acc(rules[v].combine([r.get(v) for r in rs]), [r.get(v) for r in rs]) for v in vs}
             if ctx == "group":
                 rows[gk] = vals
             else:
                 for r in rs:
                     rows[_key(r, ids)] = vals
-        return Expected(list(by) if ctx == "group" else ids, rows, info={"groups": groups})
+        return Expected(list(by) if ctx == "group" else ids, rows)
 
     if ctx == "hier":
         ds = data[stmt["ops"][0]]
@@ -489,24 +534,26 @@ def expect(stmt, rules, data):
             groups.setdefault(_key(r, other), {})[r.get(comp)] = r
         rows = {}
         for gk, items in groups.items():
-            node = {}                                   # computed code item -> {var: set}
+            node = {}                                   # computed code item -> {var: Acc}
             for parent, children in stmt["rules"]:
                 vals = {}
                 for v in vs:
                     # every child that contributes a value: leaves present in the data, nodes computed before
-                    opts = []
+                    opts, ins = [], []
                     for c in children:
                         if c in node:
                             opts.append(node[c][v])
+                            ins += node[c][v].inputs
                         elif c in items:
                             opts.append({items[c].get(v)})
+                            ins.append(items[c].get(v))
                     if not opts:
                         vals = None
                         break
                     acc = set()
                     for combo in itertools.product(*opts):
                         acc |= rules[v].combine(list(combo))
-                    vals[v] = acc
+                    vals[v] = Acc(acc, ins)
                 if vals is not None:
                     node[parent] = vals
             for parent, vals in node.items():
@@ -514,8 +561,8 @@ def expect(stmt, rules, data):
             if stmt.get("output") == "all":
                 for code, r in items.items():
                     if code not in node:
-                        rows[_full_key(ids, other, gk, comp, code)] = {v: {r.get(v)} | rules[v].single(r.get(v)) if not rules[v].fn
-                                                                        else {r.get(v)} for v in vs}
+                        rows[_full_key(ids, other, gk, comp, code)] = {
+                            v: Acc({r.get(v)} | (set() if rules[v].fn else rules[v].single(r.get(v))), [r.get(v)]) for v in vs}
         return Expected(ids, rows, exact=False)
 
     if ctx == "check_hier":
@@ -530,9 +577,10 @@ def expect(stmt, rules, data):
             vals = {}
             for v in vs:
                 if rules[v].fn:
-                    vals[v] = rules[v].whole([x.get(v) for x in validated]) | rules[v].whole([x.get(v) for x in ds.rows])
+                    vals[v] = Acc(rules[v].whole([x.get(v) for x in validated]) | rules[v].whole([x.get(v) for x in ds.rows]),
+                                  [x.get(v) for x in ds.rows])
                 else:
-                    vals[v] = rules[v].single(r.get(v)) | {r.get(v)}
+                    vals[v] = Acc(rules[v].single(r.get(v)) | {r.get(v)}, [r.get(v)])
             for rid in stmt["rule_ids"]:
                 rows[_key(r, ids) + (rid,)] = vals
         return Expected(ids + ["ruleid"], rows, exact=False)
@@ -543,13 +591,16 @@ def expect(stmt, rules, data):
         for k, vals in rows.items():
             o = {}
             for v, s in vals.items():
+                if v not in rules:
+                    continue
                 if rules[v].fn:
-                    allv = [x for kk in rows for x in rows[kk][v]]
-                    o[v] = set(s) | rules[v].whole(allv)
+                    allv = [x for kk in rows for x in rows[kk].get(v, ())]
+                    o[v] = Acc(set(s) | rules[v].whole(allv), s.inputs)
                 else:
-                    o[v] = set(s)
+                    acc = set(s)
                     for x in s:
-                        o[v] |= rules[v].single(x)
+                        acc |= rules[v].single(x)
+                    o[v] = Acc(acc, s.inputs)
             out[k] = o
         return Expected(ids, out, exact=not stmt.get("invalid"))
 
@@ -560,3 +611,21 @@ def _full_key(ids, other, gk, comp, code):
     d = dict(zip(other, gk))
     d[comp] = code
     return tuple(d[i] for i in ids)
+
+
+def eq_class(rule, inputs):
+    """equivalence class of the values combined into a result datapoint (domain vocabulary, no raw values)"""
+    present = [v for v in inputs if v is not ABSENT]
+    nulls = sum(1 for v in present if v is None)
+    s = "%d-value%s" % (len(present), "" if len(present) == 1 else "s")
+    if nulls == len(present):
+        s += ":all-null"
+    elif nulls:
+        s += ":some-null"
+    else:
+        s += ":no-null"
+    if len(present) != len(inputs):
+        s += ":unmatched-operand"
+    if rule is not None and not rule.fn and rule.order_sensitive(present):
+        s += ":order-sensitive-rule"
+    return s
